@@ -72,8 +72,11 @@ C02Self(n, b1, p, b2) ==
         p.res.ok /\ b2.res.ok /\ b2.res.v = b1.res.v)
 
 \* C05  sizeof is exact when it answers.   cs = <<sizeof, build or parse>>
+\* a build counts when what it wrote is a valid encoding (RawCopy writes caller-supplied raw data unchecked)
+ValidEncoding(n, x) == LET mp == ParseCall(n, x.res.v.b, 0, x.kw) IN ~IsOOM(mp) /\ mp.ok /\ Tell(mp.s) = Len(x.res.v.b)
 C05Exact(n, z, x) ==
-    Tri(z.res.ok /\ x.res.ok /\ ~AnyNode(n, {"ProcessXor", "ProcessRotateLeft", "NullStripped", "Pointer", "Peek", "Seek", "Union", "RestreamData"}),
+    Tri(z.res.ok /\ x.res.ok /\ ~AnyNode(n, {"ProcessXor", "ProcessRotateLeft", "NullStripped", "Seek", "RestreamData"})
+        /\ (x.op = "build" /\ AnyNode(n, {"RawCopy"}) => ValidEncoding(n, x)),
         ~z.res.v.neg /\ VInt(Advance(x)) = z.res.v)
 \* ... and fails only with SizeofError
 \* premise "validly parameterised": the model answers or says SizeofError (negative lengths, modulus < 2,
